@@ -109,6 +109,12 @@ func mtpOf(v any, present bool, want *merkletree.Hash, k, val *big.Int) string {
 		// the enclosing document does not decode: never consulted
 		return "(Some (mkmtpf false None LErr))"
 	}
+	return mtpOfProof(&p, want, k, val)
+}
+
+// mtpOfProof renders `option mtpf` for a decoded (or programmatically built) proof:
+// NodeAux shape and what merkletree.RootFromProof does on it (under recover).
+func mtpOfProof(p *merkletree.Proof, want *merkletree.Hash, k, val *big.Int) string {
 	aux := "None"
 	if p.NodeAux != nil {
 		aux = fmt.Sprintf("(Some (%s, %s))", b2c(p.NodeAux.Key != nil), b2c(p.NodeAux.Value != nil))
@@ -123,7 +129,7 @@ func mtpOf(v any, present bool, want *merkletree.Hash, k, val *big.Int) string {
 		if k == nil || val == nil {
 			return
 		}
-		root, err := merkletree.RootFromProof(&p, k, val)
+		root, err := merkletree.RootFromProof(p, k, val)
 		if err != nil {
 			return
 		}
